@@ -1049,6 +1049,7 @@ Proof.
       exact (lit_step ic f1 m ch rest' r q Hgm (all_nodes_here _ _ Ho) Ich L (Himp r q MC)).
 Qed.
 
+
 (* ---------------------------------------------------------------- the dispatch *)
 
 Lemma reach_facts : forall name ic trace hist, TokensSplit.hist_tokens hist = true ->
@@ -1222,7 +1223,7 @@ Definition ex_add (p : String.string) : top := OAdd (bs p) (HUser (bs p)) [] [GE
 Definition ex_lit_hist : list top :=
   [ex_add "/a"; ex_add "/b"; ex_add "/c"; ex_add "/d"; ex_add "/e"; ex_add "/{id}"; ex_add "/ab/c";
    ORemove (bs "/c") []].
-Definition ex_lit_tree : tree := fold_left tstep ex_lit_hist (new_tree (bs "r") [] false).
+Notation ex_lit_tree := (fold_left tstep ex_lit_hist (new_tree (bs "r") [] false)).
 Definition ex_node_e : node := TreeNames.kid 3 (TreeNames.kid 0 (troot ex_lit_tree)).
 Definition ex_node_abc : node := TreeNames.kid 0 (TreeNames.kid 0 (TreeNames.kid 0 (troot ex_lit_tree))).
 
@@ -1275,11 +1276,13 @@ Example ex_lit_served : served ex_lit_tree GET (bs "/e") ex_node_e [] /\
                         served ex_lit_tree POST (bs "/ab/c") ex_node_abc [].
 Proof.
   destruct ex_lit_premises as [D1 [P1 [H1 [B1 [E1 [D2 [P2 [H2 [B2 E2]]]]]]]]].
+  assert (S1 : bs "/e" <> bs "*") by (vm_compute; discriminate).
+  assert (S2 : bs "/ab/c" <> bs "*") by (vm_compute; discriminate).
+  assert (N1 : bs "/e" <> []) by (vm_compute; discriminate).
+  assert (N2 : bs "/ab/c" <> []) by (vm_compute; discriminate).
   split.
-  - apply (literal_route_method (bs "r") [] false ex_lit_hist (bs "/e") ex_node_e GET);
-      [exact (proj1 ex_lit_accepted) | exact D1 | exact P1 | exact H1 | exact B1 | discriminate |
-       vm_compute; discriminate | left; reflexivity | exact E1].
-  - apply (literal_route_method (bs "r") [] false ex_lit_hist (bs "/ab/c") ex_node_abc POST);
-      [exact (proj1 ex_lit_accepted) | exact D2 | exact P2 | exact H2 | exact B2 | discriminate |
-       vm_compute; discriminate | left; reflexivity | exact E2].
+  - exact (literal_route_method (bs "r") [] false ex_lit_hist (bs "/e") ex_node_e GET
+             (proj1 ex_lit_accepted) D1 P1 H1 B1 N1 S1 (or_introl eq_refl) E1).
+  - exact (literal_route_method (bs "r") [] false ex_lit_hist (bs "/ab/c") ex_node_abc POST
+             (proj1 ex_lit_accepted) D2 P2 H2 B2 N2 S2 (or_introl eq_refl) E2).
 Qed.
